@@ -44,6 +44,27 @@ def leaf_explanations_all_empty(text):
 
 
 CYCLE = "leaf-report-misses-change-of-type-in-a-cycle"
+CVSWAP = "leaf-report-misses-reorder-of-members-whose-types-differ-only-in-cv"
+
+
+def reorder_of_members_differing_in_cv(case, m, leaf_text):
+    """`signed char m1; const signed char m2;` swapped: the default report shows the two offset changes, the leaf report has no
+    block for the struct (with or without suppressions).  Narrow on purpose: the two reordered members have the same type up
+    to cv-qualifiers but not the identical type (identically typed members are seed C13-1's shape and stay a violation)."""
+    idx = M.type_index(m)
+    for info in case["infos"]:
+        if info.get("kind") != "reorder_members" or info.get("type") not in idx or len(info.get("members", [])) != 2:
+            continue
+        t = idx[info["type"]]
+        ms = {mm["name"]: mm for mm in M._members_flat(t["members"]) if "name" in mm}
+        a, b = (ms.get(n) for n in info["members"])
+        if not a or not b or a.get("bits") is not None or b.get("bits") is not None:
+            continue
+        if a["type"] != b["type"] and M.strip_cv(a["type"]) == M.strip_cv(b["type"]):
+            cname = t.get("cname", t["name"])
+            if not re.search(r"'(?:struct|class|union) %s(?: at [^']*)?' changed:" % re.escape(cname), leaf_text):
+                return True
+    return False
 
 
 def changed_type_in_cycle_missing(case, m, iface, leaf_text):
@@ -191,6 +212,9 @@ def run_case(case, cx):
                 return
             if same_named_private_types_merged(m, m2, hit, ltxt):
                 cx.violation(MERGED, dict(det, interface=hit))
+                return
+            if reorder_of_members_differing_in_cv(case, m, ltxt):
+                cx.violation(CVSWAP, dict(det, interface=hit))
                 return
             if changed_type_in_cycle_missing(case, m, hit, ltxt):
                 cx.violation(CYCLE, dict(det, interface=hit))
